@@ -220,7 +220,13 @@ fn main() {
     let mut st = Stats::default();
     if let Some(c) = run.replay_case() {
         let (sizes, cfg) = case_from_json(&c);
-        check(&mut run, &mut st, &sizes, &cfg);
+        // a violated determinism clause may show only with some probability: repeat (16 times at most)
+        for _ in 0..16 {
+            check(&mut run, &mut st, &sizes, &cfg);
+            if run.num_violations() > 0 {
+                break;
+            }
+        }
         run.finish();
     }
     let max_len = run.pick(6, 7);
